@@ -1385,6 +1385,42 @@ def rule_r15(prog, res):
     res.floor('R15', 'element names built in Soap12', n, 6)
 
 
+def rule_r16(prog, res):
+    res.rule('R16', 'the servers serialise with the protocol of the request '
+             'context (ctx.out_protocol), which user code may have switched, '
+             'never with the application\'s: the fault document and its '
+             'bytes must come from one protocol')
+    n = k = 0
+    for mod in prog.modules.values():
+        if not mod.relpath.startswith('spyne/server/') or \
+                '/twisted/' in mod.relpath:
+            continue
+        for fn in mod.functions.values():
+            for c in calls_in(fn.node):
+                if not isinstance(c.func, ast.Attribute):
+                    continue
+                base = unparse(c.func.value)
+                if base.endswith('ctx.out_protocol'):
+                    n += 1
+                elif base.endswith('app.out_protocol'):
+                    k += 1
+                    where = '%s:%d' % (mod.relpath, c.lineno)
+                    res.ob('R16', where, '%s calls %s' % (
+                        fn.qualname, unparse(c.func)), 'VIOLATED')
+                    res.finding('R16', '%s|app-out-protocol|%s' % (
+                        fn.qualname, c.func.attr), where, '%s calls %s: when '
+                        'a method assigned ctx.out_protocol and then raised, '
+                        'the fault is serialised by the application\'s '
+                        'protocol and turned into bytes (and given its '
+                        'content type and status) by the request\'s: a SOAP '
+                        '1.1 fault under the SOAP 1.2 content type, or a '
+                        'TypeError out of the WSGI callable' % (
+                            fn.qualname, unparse(c.func)))
+    res.ob('R16', 'spyne/server/', 'calls on ctx.out_protocol: %d, on '
+           'app.out_protocol: %d' % (n, k), 'ok')
+    res.floor('R16', 'calls on the context\'s out protocol', n, 3)
+
+
 def run(prog, res, tier):
     res.run_rule(rule_r8, prog, res)
     res.run_rule(rule_r1, prog, res, tier)
@@ -1400,6 +1436,7 @@ def run(prog, res, tier):
     res.run_rule(rule_r13, prog, res)
     res.run_rule(rule_r14, prog, res)
     res.run_rule(rule_r15, prog, res)
+    res.run_rule(rule_r16, prog, res)
 
 
 _A = 'spyne/application.py'
@@ -1410,6 +1447,12 @@ _H = 'spyne/protocol/dictdoc/hier.py'
 _F = 'spyne/model/fault.py'
 
 MUTANTS = [
+    Mutant('serialize-with-app-protocol', 'R16', 'fire',
+           'spyne/server/_base.py',
+           in_func('ServerBase.get_out_string_pull',
+                   "ret = ctx.out_protocol.serialize(ctx,",
+                   "ret = self.app.out_protocol.serialize(ctx,"),
+           'app-out-protocol'),
     Mutant('soap12-reader-by-sender-prefix', 'R15', 'fire',
            'spyne/protocol/soap/soap12.py',
            in_func('Soap12.fault_from_element',
